@@ -74,6 +74,8 @@ def rs_ty(prog, t, lt_for_structs="a"):
         args = ", ".join(rs_ty(prog, a, lt_for_structs) for a in t[1])
         ret = "" if t[2] == ("unit",) else " -> " + rs_ty(prog, t[2], lt_for_structs)
         return "impl %s(%s)%s" % ("FnMut" if t[3] else "Fn", args, ret)
+    if k == "tr":
+        return "impl " + t[1]
     raise ValueError(t)
 
 
@@ -328,6 +330,8 @@ def canon_arg_expr(prog, name, t):
         return "%s%s(%s)" % (V, {"ustr": "strs8", "u16": "strs16", "utf8": "strsu"}[t[1]], name)
     if k == "cb":
         return "\"cb\".to_string()"
+    if k == "tr":
+        return "\"tr\".to_string()"
     if k == "write":
         return "\"w\".to_string()"
     raise ValueError(t)
@@ -363,7 +367,8 @@ def emit_method(prog, owner, m, bodies, indent="        "):
         else:
             ps.append("self")
     for pn, pt in m.params:
-        ps.append("%s: %s" % (rust_ident(pn), rs_ty(prog, pt, lt_for_structs=(m.lifetimes[0] if m.lifetimes else "_"))))
+        pa = "".join(a + " " for a in getattr(m, "param_attrs", {}).get(pn, ()))
+        ps.append("%s%s: %s" % (pa, rust_ident(pn), rs_ty(prog, pt, lt_for_structs=(m.lifetimes[0] if m.lifetimes else "_"))))
     ret = "" if m.ret == ("unit",) else " -> " + rs_ty(prog, m.ret, lt_for_structs=(m.lifetimes[0] if m.lifetimes else "_"))
     out.append("%spub fn %s%s(%s)%s {\n" % (indent, m.name, gens, ", ".join(ps), ret))
     if not bodies or m.script is None:
@@ -400,10 +405,9 @@ def emit_body(prog, owner, m, ind):
         args.append(canon_arg_expr(prog, rust_ident(pn), pt))
     if any(pt[0] == "write" for _, pt in m.params):
         lines.append("use core::fmt::Write as _;")
-    if any(pt[0] == "cb" and pt[3] for _, pt in m.params):
-        for pn, pt in m.params:
-            if pt[0] == "cb" and pt[3]:
-                lines.append("let mut %s = %s;" % (rust_ident(pn), rust_ident(pn)))
+    for pn, pt in m.params:
+        if (pt[0] == "cb" and pt[3]) or (pt[0] == "tr" and any(mm for _, mm, _, _ in pt[2])):
+            lines.append("let mut %s = %s;" % (rust_ident(pn), rust_ident(pn)))
     lines.append("let vf_n = crate::vf::enter(\"%s\", &[%s]);" % (m.abi_name, ", ".join(args)))
     # scripted side effects per call
     eff = sc.get("effects", [])
@@ -517,6 +521,23 @@ def field_canon(expr, ft):
     return "vf::c(&%s)" % expr
 
 
+def emit_traits(prog, mod):
+    """`pub trait` declarations for every ("tr", ...) parameter type of the module's methods (one per trait name)."""
+    out, seen = [], set()
+    for t in mod.items:
+        for m in t.methods:
+            for _, pt in m.params:
+                if pt[0] == "tr" and pt[1] not in seen:
+                    seen.add(pt[1])
+                    out.append("    pub trait %s {\n" % pt[1])
+                    for mname, mm, margs, mret in pt[2]:
+                        args = "".join(", a%d: %s" % (i, rs_ty(prog, a)) for i, a in enumerate(margs))
+                        ret = "" if mret == ("unit",) else " -> " + rs_ty(prog, mret)
+                        out.append("        fn %s(&%sself%s)%s;\n" % (mname, "mut " if mm else "", args, ret))
+                    out.append("    }\n")
+    return "".join(out)
+
+
 def emit_program(prog, bodies=False, crate_attrs="", target="host"):
     out = []
     out.append("#![allow(warnings)]\n")
@@ -537,6 +558,7 @@ def emit_program(prog, bodies=False, crate_attrs="", target="host"):
             out.append(emit_typedef(prog, t, bodies))
             out.append("\n")
         out.append(mod.extra_src)
+        out.append(emit_traits(prog, mod))
         out.append("}\n\n")
     if bodies:
         out.append(vf_mod(target))
